@@ -156,6 +156,11 @@ def run(ctx, proof):
     mism = campaign.run_histories(ctx, ["superadditive", "superadditive_cached"], "sa",
                                   [(3, 20, 12), (4, 10, 14)] if ctx.quick else [(3, 200, 30), (4, 150, 30), (5, 40, 30)], [],
                                   alt=True, fresh_check=True)
+    # beyond 8 players (table-size / dtype limits of the memoised structure), memoised computers only
+    mism += campaign.run_histories(ctx, ["superadditive_cached"], "sa", [(9, 1, 8)] if ctx.quick else [(9, 4, 12), (10, 1, 8)], [],
+                                   alt=False, fresh_check=True)
+    mism += campaign.run_histories(ctx, ["sam_apx_1"], "sam", [(9, 1, 6)] if ctx.quick else [(9, 3, 10)], [],
+                                   alt=False, fresh_check=True)
     mism += campaign.run_histories(ctx, [c for c in comps_run if c.startswith("sam")], "sam",
                                    [(3, 15, 12), (4, 6, 12)] if ctx.quick else [(3, 150, 30), (4, 100, 30), (5, 20, 20)], [],
                                    alt=True, fresh_check=True)
